@@ -503,6 +503,80 @@ def r7_length_before_zip(ctx):
     ctx.floor('C17.R7', 'zip sites in the structural comparisons', n, 6)
 
 
+def _side_of(b, defs, l, proj, depth=0):
+    """which of the two compared values (parameter 1 = self, 2 = other) a place belongs to: follows copies / references, picks the right
+    operand of a `(a, b)` tuple, and the right half of an item produced by `x.iter().zip(y.iter())`"""
+    if depth > 12:
+        return set()
+    if 1 <= l <= b.raw['argc']:
+        return {l} if l in (1, 2) else set()
+    ds = defs.full.get(l, [])
+    if len(ds) != 1:
+        out = set()
+        for _, _, n in ds[:4]:
+            if 'rv' in n and n['rv']['k'] in ('use', 'ref'):
+                q = n['rv'].get('pl') or op_place(n['rv']['op'])
+                if q is not None:
+                    out |= _side_of(b, defs, q['l'], list(q.get('p', [])) + proj, depth + 1)
+        return out
+    n = ds[0][2]
+    if 'rv' in n:
+        rv = n['rv']
+        if rv['k'] == 'agg' and rv.get('ak') == 'tuple' and proj and proj[0].startswith('f:') and proj[0][2:].isdigit() and int(proj[0][2:]) < len(rv['ops']):
+            q = op_place(rv['ops'][int(proj[0][2:])])
+            return _side_of(b, defs, q['l'], list(q.get('p', [])) + proj[1:], depth + 1) if q else set()
+        if rv['k'] in ('use', 'ref', 'cast'):
+            q = rv.get('pl') or op_place(rv['op'])
+            return _side_of(b, defs, q['l'], list(q.get('p', [])) + proj, depth + 1) if q else set()
+        return set()
+    c = callee(n) or ''
+    if c == 'core::iter::traits::iterator::Iterator::next' and n['aty'] and 'Zip<' in n['aty'][0]:
+        rest = [e for e in proj if e != '*']
+        if rest[:2] == ['d:Some', 'f:0'] and len(rest) > 2 and rest[2] in ('f:0', 'f:1'):
+            sl, _ = backward_slice(b, op_place(n['args'][0])['l'], defs)
+            for cc, _, z in slice_calls(sl):
+                if cc == 'core::iter::traits::iterator::Iterator::zip':
+                    q = op_place(z['args'][0 if rest[2] == 'f:0' else 1])
+                    _, locs = backward_slice(b, q['l'], defs) if q else ([], set())
+                    return {x for x in (1, 2) if x in locs}
+    out = set()
+    for a in n.get('args', []):
+        q = op_place(a)
+        if q is not None:
+            _, locs = backward_slice(b, q['l'], defs)
+            out |= {x for x in (1, 2) if x in locs}
+    return out
+
+
+def r8_symmetric_tests(ctx):
+    ctx.rule('C17.R8', 'P9 sibling agreement between the two operands: equivalence is a symmetric relation, so in the functions of the '
+             'equivalence family that take the two values (self, other), an enum of rustdoc_ir that is tested (matched on) on one side only is '
+             'a one-sided condition: `a ~ b` can then hold while `b ~ a` does not. A test counts for a side when its scrutinee is that '
+             'parameter, a field of it, its half of a `(a, b)` tuple or its half of a zipped pair.')
+    n = 0
+    for b in family_bodies(ctx, 'equivalence'):
+        if b.is_promoted or b.nid != b.nroot or b.raw['argc'] < 2 or not b.nid.split('::')[-1].lstrip('_').startswith('is_equivalent'):
+            continue
+        defs = Defs(b)
+        sides = {}
+        for sb in sorted(b.live_blocks()):
+            w = b.term(sb)
+            if not w or w['k'] != 'switch' or 'enum' not in w:
+                continue
+            e = strip_generics(w['enum'])
+            if not e.startswith(CR + '::'):
+                continue
+            sd = _side_of(b, defs, w['src']['l'], list(w['src'].get('p', [])))
+            if len(sd) == 1:
+                sides.setdefault(e, {}).setdefault(next(iter(sd)), b.loc(sb))
+        for e, m in sorted(sides.items()):
+            n += 1
+            ctx.ob('C17.R8', 'both-sides|%s|%s' % (b.nid.replace(T, ''), e.split('::')[-1]), set(m) == {1, 2}, m.get(1) or m.get(2),
+                   '%s is matched on for %s' % (e.split('::')[-1], 'both operands' if set(m) == {1, 2} else
+                                               'the %s operand only: the condition it guards is one-sided' % ('self' if 1 in m else 'other')))
+    ctx.floor('C17.R8', 'enums tested per side in the equivalence functions', n, 3)
+
+
 def check(ctx):
     r4_bindings_compared_by_equality(ctx)
     r5_no_shortcut_around_recursion(ctx)
@@ -511,3 +585,4 @@ def check(ctx):
     r2_field_preservation(ctx)
     r3_canonical_constructor(ctx)
     r7_length_before_zip(ctx)
+    r8_symmetric_tests(ctx)
